@@ -142,6 +142,9 @@ func runC06(c *Ctx, r *Report) {
 		r.Floor("R-C06.16", "signers in the identity provider", nsign, 1)
 	}
 	importRules(c, r, "C18", []string{"R-C18.2"}, "R-C06.14")
+	r.Doc("R-C06.17", "what is validated is what is merged, and nothing is merged unvalidated: a log never shares its index with another log (adopted from C02: entries would appear without CanAppend/Verify), and verifying under a link key never writes into the candidate (adopted from C05: Copy shares nothing with the original)")
+	importRules(c, r, "C02", []string{"R-C02.12"}, "R-C06.17")
+	importRules(c, r, "C05", []string{"R-C05.11"}, "R-C06.17")
 	loopsComplete(c, r, "R-C06.13", func(fn *Fn) bool { return rootNamed(fn, "Join", "Verify", "difference") }, "candidates after the point where the loop stops are merged without having been validated")
 	errDiscipline(c, r, "R-C06.12", func(fn *Fn) bool {
 		return rootNamed(fn, "Verify", "Join", "Append", "CanAppend", "VerifyIdentity")
